@@ -47,4 +47,14 @@ theorem sources_hand_their_loader_to_watch :
     pathSourceWatchArgs = ["chan", "field:Refresh", "call:makePath", "func:loadPath"] ∧
     makePathReturns = ["call:filepath.Join", "call:filepath.Join"] := by decide
 
+/-- `main.makeTLSConfig` builds, for the one listener it is called for, one source from that listener's
+`CertSource` and one `cert.TLSConfig` from that source and that listener's own `StrictMatch` / TLS options, and
+touches no package-level state of package main (`Model.C11.Deployment`: one store per listener) — `c11.listeners`
+(the real executable with several listeners on one source, different `strictmatch` settings, real handshakes) -/
+theorem every_listener_builds_its_own_config :
+    makeTLSConfigCalls =
+      ["cert.NewSource(listener.CertSource)",
+       "cert.TLSConfig(result:cert.NewSource, listener.StrictMatch, listener.TLSMinVersion, listener.TLSMaxVersion, listener.TLSCiphers)"] ∧
+    makeTLSConfigPackageVars = [] := ⟨rfl, rfl⟩
+
 end Fabio.Props.C11Pins
